@@ -53,9 +53,13 @@ def cache_load(url, replace_file=False):
 
         # The data has been decoded as UTF-8; write and read the cache copy as
         # UTF-8 as well instead of depending on the locale's encoding.
-        file_obj = open(cache_file, "w", encoding="utf-8")
-        file_obj.write(str(data))
-        file_obj.close()
+        # The copy is written under another name and moved into place, so that a
+        # concurrent load of the same url finds either no copy or a complete one,
+        # never an empty or half written file.
+        part_file = "%s.%d.%d.part" % (cache_file, os.getpid(), threading.get_ident())
+        with open(part_file, "w", encoding="utf-8") as file_obj:
+            file_obj.write(str(data))
+        os.replace(part_file, cache_file)
 
     return open(cache_file, encoding="utf-8")
 
